@@ -45,7 +45,12 @@ void harness(void) {
 	 *   else; user/pass only when BOTH are given (one without the other is refused before anything is written); every write
 	 *   window ends exactly at the end of buf. */
 	char *buf; size_t len = nondet_size(); int res;
-	static const char sc[] = "s", us[] = "u", pa[] = "p", ho[] = "h", qu[] = "q", fr[] = "f";
+	static const char sc[] = "s", us[] = "u", pa[] = "p", qu[] = "q", fr[] = "f";
+#ifdef IPV6_HOST
+	static const char ho[] = "::1";  g_uc_host_is_v6 = 1;       /* host as uriSplit delivers an IPv6 literal: without the brackets */
+#else
+	static const char ho[] = "h";    g_uc_host_is_v6 = 0;
+#endif
 	char pth[2];
 	pth[0] = (char)nondet_uchar(); pth[1] = 0;      /* only the first character of the path matters to uriCompose */
 	g_uc_scheme = nondet_bool() ? sc : NULL; g_uc_user = nondet_bool() ? us : NULL; g_uc_pass = nondet_bool() ? pa : NULL; g_uc_host = nondet_bool() ? ho : NULL;
